@@ -795,20 +795,36 @@ def _inline_filter_generators(tree: ast.Module) -> int:
         if not isinstance(fn, ast.FunctionDef) or fn.decorator_list or fn.args.vararg or fn.args.kwarg or fn.args.kwonlyargs or fn.args.defaults:
             continue
         body = [st for st in fn.body if not (isinstance(st, ast.Expr) and isinstance(st.value, ast.Constant))]
-        if len(body) != 1 or not isinstance(body[0], ast.For) or body[0].orelse:
-            continue
-        lp = body[0]
         params = [a.arg for a in fn.args.args]
-        if not params or not (isinstance(lp.iter, ast.Name) and lp.iter.id == params[0]) or not isinstance(lp.target, ast.Name):
+        if len(body) != 1 or not params:
             continue
-        inner, test = lp.body, None
-        if len(inner) == 1 and isinstance(inner[0], ast.If) and not inner[0].orelse:
-            test, inner = inner[0].test, inner[0].body
-        if not (len(inner) == 1 and isinstance(inner[0], ast.Expr) and isinstance(inner[0].value, ast.Yield) and isinstance(inner[0].value.value, ast.Name) and inner[0].value.value.id == lp.target.id):
+        if isinstance(body[0], ast.Return) and isinstance(body[0].value, ast.GeneratorExp) and len(body[0].value.generators) == 1:
+            # `return (e for e in hypergraph.get_edges() if len(e) != size)`
+            g = body[0].value.generators[0]
+            if g.is_async or len(g.ifs) > 1 or not isinstance(g.target, ast.Name) or not (isinstance(body[0].value.elt, ast.Name) and body[0].value.elt.id == g.target.id):
+                continue
+            tvar, it_expr, test = g.target.id, g.iter, (g.ifs[0] if g.ifs else None)
+        elif isinstance(body[0], ast.For) and not body[0].orelse:
+            lp = body[0]
+            if not isinstance(lp.target, ast.Name):
+                continue
+            inner, test = lp.body, None
+            if len(inner) == 1 and isinstance(inner[0], ast.If) and not inner[0].orelse:
+                test, inner = inner[0].test, inner[0].body
+            if not (len(inner) == 1 and isinstance(inner[0], ast.Expr) and isinstance(inner[0].value, ast.Yield) and isinstance(inner[0].value.value, ast.Name) and inner[0].value.value.id == lp.target.id):
+                continue
+            tvar, it_expr = lp.target.id, lp.iter
+        else:
             continue
-        if test is not None and any(isinstance(x, ast.Name) and x.id == params[0] for x in ast.walk(test)):
+        bare = isinstance(it_expr, ast.Name) and it_expr.id == params[0]
+        # the iterated expression is the first parameter itself, or an expression over the parameters only
+        if not bare and not ({x.id for x in ast.walk(it_expr) if isinstance(x, ast.Name)} <= set(params)):
             continue
-        helpers[fn.name] = (params, lp.target.id, test)
+        if bare and test is not None and any(isinstance(x, ast.Name) and x.id == params[0] for x in ast.walk(test)):
+            continue
+        if any(isinstance(x, (ast.NamedExpr, ast.Yield, ast.Await, ast.Lambda)) for e_ in (it_expr, test) if e_ is not None for x in ast.walk(e_)):
+            continue
+        helpers[fn.name] = (params, tvar, test, None if bare else it_expr)
     if not helpers:
         return 0
     done = 0
@@ -816,12 +832,14 @@ def _inline_filter_generators(tree: ast.Module) -> int:
         it = lp.iter
         if not (isinstance(it, ast.Call) and isinstance(it.func, ast.Name) and it.func.id in helpers and not it.keywords and not any(isinstance(a, ast.Starred) for a in it.args)):
             continue
-        params, tvar, test = helpers[it.func.id]
+        params, tvar, test, it_expr = helpers[it.func.id]
         if len(it.args) != len(params) or not isinstance(lp.target, ast.Name):
             continue
-        if not all(isinstance(a, (ast.Name, ast.Constant)) or (isinstance(a, ast.Attribute) and isinstance(a.value, ast.Name)) for a in it.args[1:]):
+        if not all(isinstance(a, (ast.Name, ast.Constant)) or (isinstance(a, ast.Attribute) and isinstance(a.value, ast.Name)) for a in it.args[(1 if it_expr is None else 0):]):
             continue
-        mapping = dict(zip(params[1:], it.args[1:]))
+        mapping = dict(zip(params[1:], it.args[1:])) if it_expr is None else dict(zip(params, it.args))
+        if tvar in mapping:
+            continue
         mapping[tvar] = lp.target
 
         class Sub(ast.NodeTransformer):
@@ -830,7 +848,7 @@ def _inline_filter_generators(tree: ast.Module) -> int:
                     return ast.copy_location(_copy.deepcopy(mapping[n.id]) if not isinstance(mapping[n.id], ast.Name) else ast.Name(id=mapping[n.id].id, ctx=ast.Load()), n)
                 return n
 
-        lp.iter = it.args[0]
+        lp.iter = it.args[0] if it_expr is None else Sub().visit(_copy.deepcopy(it_expr))
         if test is not None:
             new_test = Sub().visit(_copy.deepcopy(test))
             lp.body = [ast.copy_location(ast.If(test=new_test, body=lp.body, orelse=[]), lp.body[0])]
